@@ -350,7 +350,7 @@ func handleViolation(t *testing.T, seed int64, w *Workload, rc *RunCtx, out Outc
 		fmt.Println(line)
 		return nil
 	}
-	fmt.Printf("violation candidate %s[%d] class=%s site=%s: %s\n", w.Name, rc.Index, v.Class, v.Site, v.Detail)
+	fmt.Printf("violation candidate %s[%d] class=%s site=%s config={%s}: %s\n", w.Name, rc.Index, v.Class, v.Site, out.Class, v.Detail)
 	params := out.Params
 	if params == nil {
 		params = rc.Params
@@ -468,7 +468,7 @@ func replayFile(t *testing.T, property string, workloads []Workload, path string
 			os.Exit(2)
 		}
 		if out.Violation != nil {
-			fmt.Printf("VIOLATION property=%s replay=%s\n  class=%s site=%s detail=%s\n", property, path, out.Violation.Class, out.Violation.Site, out.Violation.Detail)
+			fmt.Printf("VIOLATION property=%s replay=%s\n  class=%s site=%s config={%s} detail=%s\n", property, path, out.Violation.Class, out.Violation.Site, out.Class, out.Violation.Detail)
 			t.Fail()
 			return
 		}
